@@ -42,6 +42,7 @@ type FnModel struct {
 }
 
 type Env struct {
+	EmptyTag  bool // the call names the empty tag name explicitly (no field carries rules under it); otherwise "" stands for the default name
 	Tag       string
 	Scoped    map[reflect.Type]map[string]string // rule set registered for a struct type
 	Unscoped  map[string]string                  // rule set without a type: outermost struct only
@@ -126,7 +127,7 @@ func (e *Env) unspec(why string) {
 // ExpectStruct computes the expected clauses of Struct-like calls on src.
 func (e *Env) ExpectStruct(src interface{}) (exps []Exp, entryErr bool) {
 	e.exps, e.groups = nil, nil
-	if e.Tag == "" {
+	if e.Tag == "" && !e.EmptyTag {
 		e.Tag = "valid"
 	}
 	if src == nil {
